@@ -2,7 +2,7 @@
    L0 = Staged.v (reference: stack of staging levels over an ordered map),
    L1 = VLog.v (key table + append-only value log with old links: the mechanism shared by ART and RBT). *)
 From Verif Require Import MemBuf.Model MemBuf.Art MemBuf.ProofsArt MemBuf.ProofsArtIns MemBuf.ProofsArtIns2
-  MemBuf.ProofsArtMap MemBuf.ProofsArtL1 MemBuf.ProofsArtSeek MemBuf.Batched MemBuf.ProofsBatched MemBuf.ProofsBatchedL0 MemBuf.ProofsSeq MemBuf.BatchedUse MemBuf.FlagPreds MemBuf.ProofsFlagDom MemBuf.ProofsKMap MemBuf.ProofsLog MemBuf.ProofsSim MemBuf.ProofsObs
+  MemBuf.ProofsArtMap MemBuf.ProofsArtL1 MemBuf.ProofsArtSeek MemBuf.ProofsArtRange MemBuf.Batched MemBuf.ProofsBatched MemBuf.ProofsBatchedL0 MemBuf.ProofsSeq MemBuf.BatchedUse MemBuf.FlagPreds MemBuf.ProofsFlagDom MemBuf.ProofsKMap MemBuf.ProofsLog MemBuf.ProofsSim MemBuf.ProofsObs
   MemBuf.ProofsSet MemBuf.ProofsRevert MemBuf.ProofsStep MemBuf.ProofsProps.
 
 (* 1. Refinement.  Over ALL operation sequences — mutators and observers, valid and invalid handles /
@@ -202,6 +202,21 @@ Theorem C08_L2_seek_starts_at_lower_bound :
   forall o lo, wf_root o -> seek_first lo o = find (fun k => lex_leb lo k) (keys_of_tree o).
 Proof. exact seek_first_spec. Qed.
 Print Assumptions C08_L2_seek_starts_at_lower_bound.
+
+(* Iterator.init: the leaves a bounded iteration walks — from the seek position of the lower bound up to the seek
+   position of the upper bound — are exactly the keys inside [lo, hi) (empty bound = unbounded; nothing when the
+   positions coincide or cross, e.g. no key >= lo); together with C08_L2_indexes_L1: exactly the in-bounds part of
+   the key column L1 iterates *)
+Theorem C08_L2_bounded_walk_is_the_bounds :
+  forall t lo hi, wf [] t -> art_range t lo hi = filter (in_bounds lo hi) (inorder t).
+Proof. exact art_range_spec. Qed.
+Print Assumptions C08_L2_bounded_walk_is_the_bounds.
+
+Example bounded_walk_no_key_above_lower :
+  range_leaves (build [[1%N]; [2%N]; [3%N]]) true [9%N] [] = [] /\
+  range_leaves (build [[1%N]; [2%N]; [3%N]]) true [2%N] [] = [[3%N]; [2%N]] /\
+  range_leaves (build [[1%N]; [2%N]; [3%N]]) false [] [3%N] = [[1%N]; [2%N]].
+Proof. vm_compute. repeat split. Qed.
 
 (* insert = recursiveInsert with expandLeafIfNeeded (leaf -> node4 over the common prefix, the exhausted key as
    in-place leaf), expandNode (prefix split, the old node re-prefixed from its stored bytes or its minimum leaf),
